@@ -667,6 +667,7 @@ def fam_approx_tail(seed, tail=None):
     elif tail == "softmax":
         y = g.reshape(x, [1, h * w * c]) if r.integers(0, 2) else g.reshape(x, [h * w, c])
         x = g.softmax(y, float(r.choice([1.0, 0.5, 2.0])))
+        tol = 0  # 8-bit softmax: the reference is the fixed-point kernel itself, which the lowering is meant to reproduce exactly
     if r.integers(0, 3) == 0 and len(g.T(x).shape) == 4:
         X = g.T(x)
         x = g.reshape(x, [1, X.shape[1] * X.shape[2], 1, X.shape[3]])
